@@ -1,6 +1,6 @@
 use std::{
     fs::File,
-    io::{self, BufRead, BufReader},
+    io::{self, BufRead, BufReader, Read},
     path::Path,
 };
 
@@ -39,10 +39,12 @@ fn count_lines<R: BufRead>(mut reader: R) -> io::Result<usize> {
     }
 }
 
-/// attempts to read a gzip header from the file. if it is found,
-/// then returns true. some inefficiency here due to throwing out the
-/// stream object that could have been used later, but in typical Compass
-/// settings, this isn't a real bottleneck.
+/// attempts to read the two magic bytes of a gzip file. if they are found,
+/// then returns true. parsing the complete gzip header here would take a
+/// gzip file that was cut short inside its header for plain text; it is the
+/// decoder that reports such a file as unreadable. some inefficiency here due
+/// to throwing out the stream object that could have been used later, but in
+/// typical Compass settings, this isn't a real bottleneck.
 pub fn is_gzip<P>(filepath: P) -> bool
 where
     P: AsRef<Path>,
@@ -50,9 +52,9 @@ where
     let file_result = File::open(filepath);
     match file_result {
         Err(_) => false,
-        Ok(file) => {
-            let gz = GzDecoder::new(io::BufReader::new(file));
-            gz.header().is_some()
+        Ok(mut file) => {
+            let mut magic = [0u8; 2];
+            file.read_exact(&mut magic).is_ok() && magic == [0x1f, 0x8b]
         }
     }
 }
